@@ -45,6 +45,7 @@ def source_stamp():
 
 def regenerate():
     from harness import facts_cli, facts_jobs, facts_manifest, facts_rtl, facts_routesel, facts_decode  # noqa: F401  (register their generators)
+    os.makedirs(os.path.join(common.COQ, "gen"), exist_ok=True)   # git-ignored: absent in a fresh clone / snapshot
     stamp_file = os.path.join(common.COQ, "gen", ".stamp")
     stamp = source_stamp()
     gens = list(dict.fromkeys(GENERATORS))
